@@ -348,6 +348,12 @@ func c19Run(env *core.Env, ci any) core.Outcome {
 		if p := c19StrayPos(c, err.Error()); p != "" {
 			return bad("stray-position/"+faultKind(c.Fault), "the patch has faults at %d:%d and %d:%d but a diagnostic names %s: %v", c.Line, c.Col, c.Line2, c.Col2, p, err)
 		}
+		// the diagnostic is a function of the patch: the same text fifteen more times gives the same message
+		for i := 0; i < 15; i++ {
+			if _, err2 := patch.Parse(c.Name, []byte(c.Patch)); err2 == nil || err2.Error() != err.Error() {
+				return bad("nondeterministic-diagnostic", "the same patch gives different diagnostics:\n %v\n %v", err, err2)
+			}
+		}
 	default:
 		srv := env.Private["cli"].(*drive.Server)
 		root := filepath.Join(env.Scratch, "c19")
